@@ -796,13 +796,19 @@ template <typename To_Policy, typename From_Policy, typename To, typename From>
 inline Result
 assign_float_int_inexact(To& to, const From from, Rounding_Dir dir) {
   prepare_inexact<To_Policy>(dir);
+  // The asm statements that reset and read the FPU inexact flag only
+  // clobber memory: force the operand through memory so that the
+  // compiler cannot move the conversion across them.
+  From from_m = from;
+  PPL_CC_FLUSH(from_m);
   if (fpu_direct_rounding(dir)) {
-    to = from;
+    to = from_m;
+    limit_precision(to);
   }
   else {
     fpu_rounding_control_word_type old
       = fpu_save_rounding_direction(round_fpu_dir(dir));
-    to = from;
+    to = from_m;
     limit_precision(to);
     fpu_restore_rounding_direction(old);
   }
